@@ -182,7 +182,7 @@ PROPS["C14"] = dict(
     explanation="Bounded stand-in only (DESIGN.md C14): random methods, unicode/reserved-character paths, query dicts, header sets, raw/JSON/form bodies built by the real Requester and "
                 "recovered by the real Requestant and buildEnviron.")
 PROPS["C18"] = dict(
-    contracts=["contracts.http_responder"], harness="harness.http_native:C18", level="other",
+    contracts=["contracts.http_responder", "contracts.http_server2"], harness="harness.http_native:C18", level="other",
     technique="contract-based deductive verification (pyvc) of Responder.write/start/reset/build and Server.serviceReps; bounded runtime contract on the real http.Server "
               "over fake sockets with an independent strict response-stream parser as oracle for whole connections",
     trusted_base=["httping.packChunk(msg) == HEX(len msg) CRLF msg CRLF (HEX uninterpreted; the shape is checked natively on sample messages); Hict as a case-insensitive "
@@ -195,7 +195,7 @@ PROPS["C18"] = dict(
                 "Responder.start takes the declared length and switches chunking off with it, refuses a second start; Responder.reset clears every per-response field and takes "
                 "the new request's chunkable; Responder.build chunks iff chunkable and no other Transfer-Encoding, and announces it; Server.serviceReps (<= 2 connections) closes "
                 "a connection iff its responder was closed or its response ended for a non-persistent request with everything flushed, renews the parser of a finished "
-                "persistent request, services an unfinished responder exactly once. BOUNDED: WSGI apps x request sequences (HTTP/1.0/1.1, keep-alive/close, pipelined) with the "
+                "persistent request, services an unfinished responder exactly once; Server.serviceReqs (<= 2 connections) answers a complete request by exactly one responder -- a new one wired to the request, or the existing one reset with the NEW request's environ and chunkable -- closes malformed ones, never re-parses a request whose response is in progress; Responder.service calls start_response for an application HTTPError with the Content-Length already in the header list. BOUNDED: WSGI apps x request sequences (HTTP/1.0/1.1, keep-alive/close, pipelined) with the "
                 "socket byte stream parsed by an independent strict parser: framing, order, body clamp, close decision. The HTTP/1.0 keep-alive response without a length is a "
                 "recorded finding (not self-delimiting on an open connection).")
 PROPS["C19"] = dict(
